@@ -16,7 +16,7 @@ setup_tree() {
   rm -rf $S; mkdir -p $S/coq/Gen $S/coq/Proofs
   ln -s $C/Lib $S/coq/Lib; ln -s $C/Model $S/coq/Model; ln -s $C/Spec $S/coq/Spec
   for f in $C/Gen/*; do
-    case $(basename $f) in BigIntRoutines.*) ;; *) ln -s $f $S/coq/Gen/ ;; esac
+    case $(basename $f) in BigIntRoutines.*|BigIntLoops.*) ;; *) ln -s $f $S/coq/Gen/ ;; esac
   done
   # the final files have no Default Timeout; the self-test wants quick failures
   for f in $FILES; do
